@@ -90,6 +90,7 @@ Print Assumptions C05_spec_ok_model.
 (* Prop-level readings of the checker *)
 Theorem C05_row_ok_reading : forall nq r o,
   row_ok nq r o = true <->
+  (row_bad_iri nq r = true -> o = None) /\
   (wf_row nq r = true -> exists l, o = Some l /\ strict_parse nq l = Some (expected nq r)).
 Proof. exact row_ok_reading. Qed.
 Print Assumptions C05_row_ok_reading.
@@ -103,7 +104,8 @@ Theorem C05_doc_ok_reading : forall nq rs d,
   doc_ok nq rs d = true <->
   ((forall r, In r rs -> wf_row nq r = true) ->
    exists t qs, d = Some t /\ strict_doc nq t = Some qs /\
-                forall q, In q qs <-> In q (map (expected nq) rs)).
+                forall q, In q qs <-> In q (map (expected nq) rs))
+  /\ (forall t r, d = Some t -> In r rs -> wf_row nq r = true -> row_in_doc nq r t = true).
 Proof. exact doc_ok_reading. Qed.
 Print Assumptions C05_doc_ok_reading.
 Theorem C05_quad_eqb_reading : forall a b, quad_eqb a b = true <-> a = b.
@@ -121,6 +123,11 @@ Theorem C05_valid_uri_is_iriref : forall s,
   valid_uri s = true -> forallb iri_plain s = true.
 Proof. exact valid_uri_iri_ok. Qed.
 Print Assumptions C05_valid_uri_is_iriref.
+(* and the converse: _is_valid_uri refuses no IRI that the IRIREF production allows - [wf_triple] is defined by the
+   grammar (iri_plain), not by rdflib's own acceptance test, so an over-strict table breaks the writer theorems *)
+Theorem C05_iriref_is_valid_uri : forall s, forallb iri_plain s = true -> valid_uri s = true.
+Proof. exact iri_ok_valid_uri. Qed.
+Print Assumptions C05_iriref_is_valid_uri.
 
 (* ---------------------------------------------------------------- the line reader (first half of the property)
    The reader model of Grammar/Reader.v (W3CNTriplesParser / NQuadsParser.parseline with the module's regular
@@ -187,7 +194,7 @@ Example C05_reads_legal_nonvacuous :
   rd_parseline true l = Some (strict_parse true l).
 Proof. vm_compute. repeat split; reflexivity. Qed.
 
-Theorem C05_reader_regexes_pinned_partial :
+Theorem C05_reader_regexes_pinned :
   nt_uriref_src = [60; 40; 91; 94; 58; 93; 43; 58; 91; 94; 92; 120; 48; 48; 45; 92; 120; 50; 48; 34; 60; 62; 93; 42; 41; 62]
   /\ nt_r_wspace_src = [91; 32; 92; 116; 93; 42]
   /\ nt_r_wspaces_src = [91; 32; 92; 116; 93; 43]
@@ -195,10 +202,10 @@ Theorem C05_reader_regexes_pinned_partial :
 Proof.
   split; [exact nt_uriref_src_pinned|split; [exact nt_r_wspace_src_pinned|split; [exact nt_r_wspaces_src_pinned|exact nt_validate_off]]].
 Qed.
-Print Assumptions C05_reader_regexes_pinned_partial.
-Theorem C05_reader_echar_table_partial : forall e, rd_echar e = echar e.
+Print Assumptions C05_reader_regexes_pinned.
+Theorem C05_reader_echar_table_pinned : forall e, rd_echar e = echar e.
 Proof. exact rd_echar_eq. Qed.
-Print Assumptions C05_reader_echar_table_partial.
+Print Assumptions C05_reader_echar_table_pinned.
 
 (* the reader is NOT complete on the legal language: witness for finding C05f *)
 Theorem C05_nt_reads_legal_refuted : exists d qs,
@@ -214,7 +221,8 @@ Print Assumptions C05_nt_reads_legal_refuted.
    Part M, tied by suite "join"); [rfc_resolve] is RFC 3986 section 5.2 written independently (Part S: components
    by cutting at the first '#', '?', ':'; 5.2.2 transform; 5.2.3 merge; 5.2.4 remove_dot_segments on two string
    buffers; 5.3 recomposition); [rdf_resolve] leaves a reference that has a scheme as it is (RDF resolves relative
-   references only).  [base_ok]: the base has a scheme and at most one '#'.  [hierarchical]: a '/' follows the
+   references only).  [base_ok] is the well-formedness of the base IRI: it has a scheme (RFC 3986 5.2.1) and at most one '#'
+   (RFC 3986 3.5: a fragment cannot contain '#'; a base with two is not a legal IRI).  [hierarchical]: a '/' follows the
    scheme's colon - join refuses other bases with ValueError (documented behaviour) unless the reference is a
    same-document reference. *)
 Theorem C05_join_is_rfc3986 : forall base ref,
@@ -235,16 +243,17 @@ Theorem C05_remove_dot_segments_is_5_2_4 : forall p, exists r, m_rds p = Some r 
 Proof. exact rds_eq. Qed.
 Print Assumptions C05_remove_dot_segments_is_5_2_4.
 
-Theorem C05_join_spec_ok_model : forall c, j_kf c = 0 -> j_spec_ok c (j_model c) = true.
+Theorem C05_join_spec_ok_model : forall c, j_spec_ok c (j_model c) = true.
 Proof. exact j_spec_ok_model. Qed.
 Print Assumptions C05_join_spec_ok_model.
 
-(* without "at most one '#' in the base" the statement is false: splitFragP cuts at the LAST '#' (finding C05q) *)
-Theorem C05_join_two_hashes_refuted : exists base ref t,
+(* why base_ok (well-formedness of the base, not a finding trigger) asks for at most one '#': a base with two '#' is
+   not a legal IRI (RFC 3986 3.5); on it join cuts a same-document reference's base at the LAST '#' *)
+Theorem C05_join_illegal_base_refuted : exists base ref t,
   is_none (c_scheme (s_split base)) = false /\ hierarchical base = true /\
-  rdf_resolve base ref = Some t /\ m_join base ref <> JOk t /\ j_kf {| j_base := base; j_ref := ref |} = 17.
+  rdf_resolve base ref = Some t /\ m_join base ref <> JOk t.
 Proof. exact join_two_hashes_refuted. Qed.
-Print Assumptions C05_join_two_hashes_refuted.
+Print Assumptions C05_join_illegal_base_refuted.
 
 (* RFC 3986 section 5.4: all 23 normal and 18 abnormal examples, base http://a/b/c/d;p?q, for the specification and
    for the model of rdflib's code *)
